@@ -67,3 +67,47 @@ Definition nufft_spec_exp (n N k r : Z) : Z := (k * (r - n / 2)) mod N.
 Theorem dispatch_independent n N k r : 0 < n <= N -> 0 <= r < n -> - (N / 2) <= k < N - N / 2 ->
   fourier_entry n N k r = Some (nufft_spec_exp n N k r).
 Proof. exact (fourier_entry_total n N k r). Qed.
+
+(* ---------- N-D: per-axis statements lift to any number of transformed axes, in any order ---------- *)
+From Coq Require Import Permutation.
+
+(* every axis of an N-D entry obeys the 1-D specification *)
+Lemma fftn_entry_spec : forall ns Ns ks rs es,
+  Forall (fun n => 0 < n) ns -> Forall (fun N => 0 < N) Ns ->
+  fftn_entry ns Ns ks rs = Some es ->
+  Forall2 (fun e '(n, N, k, r) => e = ((k - N / 2) * (r + left_pad n N - N / 2)) mod N /\ 0 <= r < n /\ 0 <= k < N)
+          es (combine (combine (combine ns Ns) ks) rs).
+Proof.
+  induction ns as [|n ns IH]; intros [|N Ns] [|k ks] [|r rs] es Hn HN H; cbn [fftn_entry] in H; try discriminate.
+  - injection H as <-. constructor.
+  - destruct (fft_entry n N k r) as [e|] eqn:E; [|discriminate].
+    destruct (fftn_entry ns Ns ks rs) as [es'|] eqn:E'; [|discriminate].
+    injection H as <-. inversion Hn as [|? ? Hn0 Hn']; inversion HN as [|? ? HN0 HN']; subst.
+    cbn [combine]. constructor; [|apply IH; assumption].
+    unfold fft_entry in E.
+    destruct ((0 <=? r) && (r <? n) && (0 <=? r + left_pad n N) && (r + left_pad n N <? N) && (0 <=? k) && (k <? N)) eqn:B; [|discriminate].
+    injection E as <-. rewrite fft_shift_convention by exact HN0. split; [reflexivity|lia].
+Qed.
+
+(* the transform over a set of axes does not depend on the order in which the axes are listed (dim = (-2,-1) vs (-1,-2)
+   with correspondingly permuted sizes): the multiset of per-axis phase factors is the same *)
+Fixpoint entries (l : list (Z * Z * Z * Z)) : option (list Z) :=
+  match l with
+  | [] => Some []
+  | (n, N, k, r) :: l' => match fft_entry n N k r, entries l' with Some e, Some es => Some (e :: es) | _, _ => None end
+  end.
+
+Lemma entries_perm l l' : Permutation l l' ->
+  match entries l, entries l' with
+  | Some es, Some es' => Permutation es es'
+  | None, None => True
+  | _, _ => False
+  end.
+Proof.
+  induction 1 as [|[[[n N] k] r] l l' _ IH|[[[n N] k] r] [[[n' N'] k'] r'] l|l l' l'' _ IH1 _ IH2]; cbn [entries].
+  - constructor.
+  - destruct (fft_entry n N k r); [|destruct (entries l), (entries l'); auto].
+    destruct (entries l), (entries l'); auto; try (constructor; exact IH).
+  - destruct (fft_entry n N k r), (fft_entry n' N' k' r'), (entries l); auto; try apply perm_swap.
+  - destruct (entries l), (entries l'), (entries l''); auto; try contradiction; try (eapply perm_trans; eauto).
+Qed.
